@@ -721,6 +721,70 @@ fn main() {
                     format!("{{\"client_proceeded\":{},\"client_open_ok\":{}}}", proceeded, matches!(client, Ok(true)))
                 })
             }
+            // idle <T ms> <gap ms>: a real client configured with idle_time_out(T) against a scripted peer that
+            //   advertises no time-out of its own. gap > 0: the peer sends an empty frame every <gap> ms (< T) six
+            //   times -- the connection must survive -- and then falls silent -- the client must then report the
+            //   time-out. gap = 0: the peer is silent from the start; the time-out must come, and not before T.
+            //   Wall-clock based (generous margins); only used to confirm a solver counterexample.
+            "idle" => {
+                use bytes::{BufMut, BytesMut};
+                use fe2o3_amqp::frames::amqp::{Frame, FrameBody};
+                use fe2o3_amqp_types::performatives::{ChannelMax, MaxFrameSize, Open};
+                use tokio::io::{AsyncReadExt, AsyncWriteExt};
+                use tokio_util::codec::Encoder;
+                let (t_ms, gap) = (nums[0], nums[1]);
+                let rt = tokio::runtime::Builder::new_current_thread().enable_time().build().unwrap();
+                rt.block_on(async move {
+                    fn wire(frame: Frame) -> Vec<u8> {
+                        let mut enc = frame_encoder(512);
+                        let mut body = BytesMut::new();
+                        enc.encode(frame, &mut body).unwrap();
+                        let mut v = Vec::new();
+                        v.put_u32(body.len() as u32 + 4);
+                        v.extend_from_slice(&body);
+                        v
+                    }
+                    let (client_io, mut peer_io) = tokio::io::duplex(8192);
+                    let peer = tokio::spawn(async move {
+                        let mut hdr = [0u8; 8];
+                        let _ = peer_io.read_exact(&mut hdr).await;
+                        let _ = peer_io.write_all(b"AMQP\x00\x01\x00\x00").await;
+                        let open = Open { container_id: "peer".to_string(), hostname: None, max_frame_size: MaxFrameSize(512), channel_max: ChannelMax(10), idle_time_out: None, outgoing_locales: None, incoming_locales: None, offered_capabilities: None, desired_capabilities: None, properties: None };
+                        let _ = peer_io.write_all(&wire(Frame::new(0u16, FrameBody::Open(open)))).await;
+                        if gap > 0 {
+                            for _ in 0..6 {
+                                tokio::time::sleep(std::time::Duration::from_millis(gap)).await;
+                                if peer_io.write_all(&wire(Frame::new(0u16, FrameBody::Empty))).await.is_err() {
+                                    break;
+                                }
+                            }
+                        }
+                        // keep the stream open and silent
+                        tokio::time::sleep(std::time::Duration::from_millis(4 * t_ms + 500)).await;
+                        drop(peer_io);
+                    });
+                    let start = std::time::Instant::now();
+                    let r = tokio::time::timeout(std::time::Duration::from_millis(6 * gap + 4 * t_ms + 400), async {
+                        let mut conn = match fe2o3_amqp::Connection::builder().container_id("client").idle_time_out(t_ms as u32).open_with_stream(client_io).await {
+                            Ok(c) => c,
+                            Err(_) => return "open_failed",
+                        };
+                        match conn.on_close().await {
+                            Err(fe2o3_amqp::connection::Error::TransportError(fe2o3_amqp::transport::Error::IdleTimeoutElapsed)) => "idle_timeout",
+                            Err(_) => "other_error",
+                            Ok(()) => "closed_ok",
+                        }
+                    })
+                    .await
+                    .unwrap_or("no_timeout");
+                    let elapsed = start.elapsed().as_millis() as u64;
+                    peer.abort();
+                    // with traffic: must outlive the traffic phase; in any case: not before T of silence, and eventually
+                    let earliest = 6 * gap + t_ms - t_ms / 10;
+                    let ok = r == "idle_timeout" && elapsed >= earliest;
+                    format!("{{\"ok\":{},\"result\":\"{}\",\"elapsed_ms\":{},\"earliest_ms\":{}}}", ok, r, elapsed, earliest)
+                })
+            }
             // reader <dst_len> <l1> <l2> <l3>: one read of the chained-buffer reader over three chunks
             "reader" => {
                 use std::io::Read;
